@@ -44,6 +44,13 @@ ApiRes(dd, c) ==
          IF k < 0 \/ k >= n THEN Err("IndexError", dd)
          ELSE LET sc == Scans(dd) IN
               Ok(Diag(sc[k + 1], sc[k + 2], <<dd.boxes[k + 1]>>, <<dd.offs[k + 1]>>))
+    \* the constructor called with the same boxes and offsets but another codomain (i = 0) or domain (i = 1):
+    \* the type of generator g on that side, or the empty type (j = 1); accepted exactly when the reading
+    \* of boxes and offsets still goes from the domain to the codomain
+    [] c.op = "retype"   ->
+         LET ty == IF c.j = 1 THEN <<>> ELSE IF c.i = 0 THEN Lib[c.g].cod ELSE Lib[c.g].dom
+             nd == IF c.i = 0 THEN [dd EXCEPT !.cod = ty] ELSE [dd EXCEPT !.dom = ty] IN
+         IF WellTyped(nd) THEN Ok(nd) ELSE Err("AxiomError", dd)
     [] c.op = "interchange" -> InterchangeAlg(dd, c.i, c.j, c.g = 1)
     [] c.op = "normal_form" -> NFRes(dd, c.g = 1)
     [] OTHER -> Err("UnknownOp", dd)
